@@ -61,14 +61,30 @@ func TestVerifC03Receipts(t *testing.T) {
 		retained := rapid.IntRange(1, 4).Draw(rt, "retained")
 		channels := rapid.IntRange(1, 3).Draw(rt, "channels")
 		cfg := verifSimConfig{N: 3, Q: 2, Channels: channels, RetainedCommands: retained, PageBytes: 4096,
-			Pebble: kit.Thorough() && rapid.IntRange(0, 4).Draw(rt, "pebble") == 0}
+			Pebble: rapid.IntRange(0, 4).Draw(rt, "pebble") == 0}
 		if rapid.IntRange(0, 5).Draw(rt, "single") == 0 {
 			cfg.N, cfg.Q = 1, 1
+		}
+		// half of the cases run with a small proposal limit, so that proposals of
+		// exactly the largest accepted size occur
+		maxRecs := 5
+		if rapid.Bool().Draw(rt, "smallBatchItems") {
+			cfg.BatchItems = rapid.IntRange(2, 6).Draw(rt, "batchItems")
+			if cfg.BatchItems < maxRecs {
+				maxRecs = cfg.BatchItems
+			}
 		}
 		verifRunCase(rt, k, "C03", cfg, func(s *verifSim) {
 			s.enabledOnly(map[string]bool{"C03": true})
 			var hist []string
 			sawEvictedRetry, sawRestartRetry, sawConflict, sawAmbiguous := false, false, false, false
+			sawFullRetry, sawSettledRetry, sawResolved := false, false, false
+			drawRecs := func() int {
+				if cfg.BatchItems > 0 && rapid.IntRange(0, 2).Draw(rt, "fullProposal") == 0 {
+					return cfg.BatchItems
+				}
+				return rapid.IntRange(1, maxRecs).Draw(rt, "nrec")
+			}
 			for c := 0; c < channels; c++ {
 				if _, err := s.install(c, s.control[c]); err != nil {
 					rt.Fatalf("VERIF-MACHINERY install: %v", err)
@@ -79,7 +95,7 @@ func TestVerifC03Receipts(t *testing.T) {
 			for i := 0; i < steps; i++ {
 				c := rapid.IntRange(0, channels-1).Draw(rt, "channel")
 				leader := s.node(1)
-				act := rapid.SampledFrom([]string{"new", "new", "new", "retry", "retry", "conflict", "lostResp", "restart", "lookup"}).Draw(rt, "action")
+				act := rapid.SampledFrom([]string{"new", "new", "new", "retry", "retry", "settledRetry", "conflict", "lostResp", "restart", "lookup"}).Draw(rt, "action")
 				hist = append(hist, act)
 				switch act {
 				case "new", "lostResp":
@@ -87,11 +103,19 @@ func TestVerifC03Receipts(t *testing.T) {
 						continue
 					}
 					if act == "lostResp" && cfg.N > 1 {
-						target := ch.NodeID(rapid.IntRange(2, cfg.N).Draw(rt, "lostTarget"))
-						s.armDrop(target, ExchangeReplicate, rapid.Bool().Draw(rt, "lostIsResponse"), rapid.IntRange(1, 2).Draw(rt, "lostCount"))
+						if rapid.Bool().Draw(rt, "lostEverywhere") {
+							// every follower receives and stores the proposal, every
+							// acknowledgement is lost: the outcome is ambiguous for the leader
+							for f := 2; f <= cfg.N; f++ {
+								s.armDrop(ch.NodeID(f), ExchangeReplicate, true, rapid.IntRange(1, 3).Draw(rt, "lostCount"))
+							}
+						} else {
+							target := ch.NodeID(rapid.IntRange(2, cfg.N).Draw(rt, "lostTarget"))
+							s.armDrop(target, ExchangeReplicate, rapid.Bool().Draw(rt, "lostIsResponse"), rapid.IntRange(1, 2).Draw(rt, "lostCount"))
+						}
 					}
 					cmd := &verifSimCommand{channel: c, node: 1, proposal: Proposal{Key: verifSimChannelKey(c), Expected: leader.installed[c].ID, CommandID: s.newCommandID(),
-						Records: s.newRecords(c, rapid.IntRange(1, 5).Draw(rt, "nrec"), 1, rapid.SliceOfN(rapid.Byte(), 0, 40).Draw(rt, "payload")),
+						Records: s.newRecords(c, drawRecs(), 1, rapid.SliceOfN(rapid.Byte(), 0, 40).Draw(rt, "payload")),
 						ServerAllocatedMessageIDs: rapid.Bool().Draw(rt, "serverIDs")}}
 					s.commands = append(s.commands, cmd)
 					_, err := s.commit(cmd)
@@ -126,12 +150,64 @@ func TestVerifC03Receipts(t *testing.T) {
 						if o.restarts > 0 {
 							sawRestartRetry = true
 						}
+						if cfg.BatchItems > 0 && len(o.cmd.proposal.Records) == cfg.BatchItems && (o.evictedN >= retained || o.restarts > 0) {
+							sawFullRetry = true
+						}
 					}
 					if err == nil && !wasAcked {
 						for _, p := range cmds {
 							if p != o && p.cmd.channel == o.cmd.channel {
 								p.evictedN++
 							}
+						}
+					}
+				case "settledRetry":
+					// A fresh command is acknowledged on the channel first: that proves
+					// the owner is installed and has no pending proposal. The script is
+					// sequential, so an exact retry of an acknowledged command issued
+					// right afterwards has no transient reason to be refused and must
+					// return the original range.
+					if _, ok := leader.installed[c]; !ok {
+						continue
+					}
+					var ackedHere []*verifC03Cmd
+					for _, o := range cmds {
+						if o.cmd.acked && o.cmd.channel == c {
+							ackedHere = append(ackedHere, o)
+						}
+					}
+					if len(ackedHere) == 0 {
+						continue
+					}
+					o := ackedHere[rapid.IntRange(0, len(ackedHere)-1).Draw(rt, "settledRetryOf")]
+					s.clearDrops()
+					fresh := &verifSimCommand{channel: c, node: 1, proposal: Proposal{Key: verifSimChannelKey(c), Expected: leader.installed[c].ID, CommandID: s.newCommandID(),
+						Records: s.newRecords(c, 1, 1, []byte("settle"))}}
+					s.commands = append(s.commands, fresh)
+					if _, err := s.commit(fresh); err != nil {
+						if fresh.ambiguous {
+							cmds = append(cmds, &verifC03Cmd{cmd: fresh})
+						}
+						continue
+					}
+					for _, p := range cmds {
+						if p.cmd.channel == c {
+							p.evictedN++
+						}
+					}
+					cmds = append(cmds, &verifC03Cmd{cmd: fresh})
+					if _, err := s.commit(o.cmd); err != nil {
+						s.fail("C03", "exact-retry-refused-while-idle", "exact retry of acknowledged command %x (%d records, evicted by %d newer commands, %d owner restarts) returned %v right after a fresh command was acknowledged on the same channel", o.cmd.proposal.CommandID[28:], len(o.cmd.proposal.Records), o.evictedN, o.restarts, err)
+					} else {
+						sawSettledRetry = true
+						if o.evictedN >= retained {
+							sawEvictedRetry = true
+						}
+						if o.restarts > 0 {
+							sawRestartRetry = true
+						}
+						if cfg.BatchItems > 0 && len(o.cmd.proposal.Records) == cfg.BatchItems && (o.evictedN >= retained || o.restarts > 0) {
+							sawFullRetry = true
 						}
 					}
 				case "conflict":
@@ -195,7 +271,12 @@ func TestVerifC03Receipts(t *testing.T) {
 						// proposal pending, or the channel could not be re-installed)
 						continue
 					}
-					if !errors.Is(err, ch.ErrLogConflict) {
+					oversized := cfg.BatchItems > 0 && len(p.Records) > cfg.BatchItems
+					if oversized && errors.Is(err, ch.ErrInvalidConfig) {
+						// one record more than the owner accepts in a proposal: refused as
+						// invalid input before any comparison; it must still store nothing
+						s.flags["conflicting retry larger than the proposal limit refused as invalid"] = true
+					} else if !errors.Is(err, ch.ErrLogConflict) {
 						s.fail("C03", "conflicting-retry-wrong-error", "command %x reused with different %s returned %v, want ErrLogConflict", p.CommandID[28:], field, err)
 					}
 					after := s.view(1, o.cmd.channel)
@@ -225,6 +306,54 @@ func TestVerifC03Receipts(t *testing.T) {
 					}
 				}
 			}
+			// Resolution: with every link healed, no armed loss and the owner
+			// installed, nothing transient is left. A command whose outcome was
+			// ambiguous (its proposal may already be durable on a quorum) must now be
+			// resolved by an exact retry: the call returns its range. A command that
+			// stays refused here can never obtain its range.
+			s.healAll()
+			s.clearDrops()
+			for c := 0; c < channels; c++ {
+				if _, ok := s.node(1).installed[c]; !ok {
+					if _, err := s.install(c, s.control[c]); err != nil {
+						s.flags["final re-install failed (resolution not judged): "+err.Error()] = true
+					}
+				}
+			}
+			// Only the proposal that is pending on a channel can make progress;
+			// retries of the others are refused until it is resolved. So go round
+			// by round: every round must resolve at least one command.
+			for {
+				var open []*verifC03Cmd
+				for _, o := range cmds {
+					if o.cmd.acked || !o.cmd.ambiguous {
+						continue
+					}
+					if _, ok := s.node(1).installed[o.cmd.channel]; !ok {
+						continue
+					}
+					open = append(open, o)
+				}
+				if len(open) == 0 {
+					break
+				}
+				progress := false
+				var lastErr error
+				var lastCmd *verifC03Cmd
+				for _, o := range open {
+					o.cmd.proposal.Expected = s.node(1).installed[o.cmd.channel].ID
+					if _, err := s.commit(o.cmd); err == nil {
+						progress = true
+						sawResolved = true
+					} else {
+						lastErr, lastCmd = err, o
+					}
+				}
+				if !progress {
+					s.fail("C03", "ambiguous-command-never-resolves", "exact retries of the %d commands whose first outcome was ambiguous make no progress with every link healed and the owner installed; e.g. command %x (%d records) still returns %v", len(open), lastCmd.cmd.proposal.CommandID[28:], len(lastCmd.cmd.proposal.Records), lastErr)
+					break
+				}
+			}
 			verifC03CheckLookups(s, cmds)
 			// ranges pairwise disjoint and covering exactly 1..LEO per channel
 			for c := 0; c < channels; c++ {
@@ -247,6 +376,10 @@ func TestVerifC03Receipts(t *testing.T) {
 			k.SetNonTrivial(sawEvictedRetry || sawRestartRetry)
 			k.LabelIf(sawEvictedRetry, "exact retry of a command evicted from the retained cache")
 			k.LabelIf(sawRestartRetry, "exact retry of a command acknowledged before an owner restart")
+			k.LabelIf(sawFullRetry, "exact retry of a largest-size proposal after eviction or owner restart")
+			k.LabelIf(sawSettledRetry, "exact retry right after a fresh acknowledgement (no transient refusal possible)")
+			k.LabelIf(cfg.BatchItems > 0, fmt.Sprintf("proposal limit lowered to %d records", cfg.BatchItems))
+			k.LabelIf(sawResolved, "ambiguous command resolved by an exact retry after healing")
 			k.LabelIf(sawConflict, "conflicting retry refused")
 			k.LabelIf(sawAmbiguous, "ambiguous outcome (lost response) then retry possible")
 			k.LabelIf(cfg.Pebble, "pebble stores")
